@@ -199,7 +199,7 @@ def tree_hash(extra=()):
                 if f.endswith(('.py', '.yaml', '.csv', '.json')) and 'resources/scenarios' not in dp:
                     p = os.path.join(dp, f)
                     h.update(p.encode()); h.update(open(p, 'rb').read())
-    for d in ('coq/Base', 'coq/Model', 'coq/Gen', 'harness'):
+    for d in ('coq/Base', 'coq/Model', 'coq/Gen', 'coq/Proofs', 'harness'):     # Proofs: the deciders of Proofs/Decide.v are evaluated too
         for p in sorted(glob.glob(os.path.join(VERIF, d, '*.v')) + glob.glob(os.path.join(VERIF, d, '*.py'))):
             h.update(p.encode()); h.update(open(p, 'rb').read())
     for e in extra:
